@@ -29,6 +29,7 @@ type jsonGen struct {
 	r       *rand.Rand
 	src     []byte
 	hostile bool
+	oneLine bool
 }
 
 func (g *jsonGen) text(e hclsyntax.Expression) string {
@@ -137,11 +138,20 @@ func (g *jsonGen) body(b *hclsyntax.Body) string {
 		}
 		ms = append(ms, jsonStr(t)+": "+v)
 	}
+	if g.oneLine {
+		// every member of every body on one line (minified files)
+		return "{" + strings.Join(ms, ", ") + "}"
+	}
 	return "{" + strings.Join(ms, ",\n ") + "}"
 }
 
 // jsonScenario renders the scenario's main file as JSON against the same schema
 func jsonScenario(r *rand.Rand, s *Scenario, hostile bool) *Scenario {
+	return jsonScenarioLines(r, s, hostile, false)
+}
+
+// ... with all members of a body on one line if [oneLine]
+func jsonScenarioLines(r *rand.Rand, s *Scenario, hostile, oneLine bool) *Scenario {
 	f := s.Main.Ctx.Files[s.File]
 	if f == nil {
 		return nil
@@ -150,7 +160,7 @@ func jsonScenario(r *rand.Rand, s *Scenario, hostile bool) *Scenario {
 	if !ok {
 		return nil
 	}
-	g := &jsonGen{r: r, src: s.Src, hostile: hostile}
+	g := &jsonGen{r: r, src: s.Src, hostile: hostile, oneLine: oneLine}
 	text := g.body(body) + "\n"
 	w := newWorld()
 	pd := w.AddPath("root", s.Main.Schema, map[string]string{"main.tf.json": text}, s.Main.Ctx.Functions)
@@ -160,6 +170,9 @@ func jsonScenario(r *rand.Rand, s *Scenario, hostile bool) *Scenario {
 	kind := "json"
 	if hostile {
 		kind = "json-hostile"
+	}
+	if oneLine {
+		kind += "-one-line"
 	}
 	return &Scenario{W: w, Main: pd, File: "main.tf.json", Src: []byte(text), Kind: kind}
 }
